@@ -263,7 +263,7 @@ impl Cx {
             hasher: Sha256::new(),
             sched_hasher: Sha256::new(),
             trace: Vec::new(),
-            trace_cap: 400,
+            trace_cap: std::env::var("ZKSIM_TRACE_CAP").ok().and_then(|s| s.parse().ok()).unwrap_or(400),
             counters: BTreeMap::new(),
             cells: BTreeSet::new(),
             case_set: BTreeSet::new(),
